@@ -41,6 +41,8 @@ structure Lease where
   rootNonExp : Bool
   /-- namespace of the lease (0 = root; the lease id carries it as its suffix) -/
   ns : Nat := 0
+  /-- secret lease issued to a BATCH token (`leaseEntry.ClientTokenType`; batch tokens have no lease of their own) -/
+  batch : Bool := false
   deriving DecidableEq, Repr
 
 inductive FailMode where
@@ -218,6 +220,19 @@ def reg (s : St) (owner : Nat) (ttl max : Int) (renewable : Bool) (now : Int) : 
     (s, .okLease l.id t)
   | _ => (s, .err "ttl")
 
+/-- a secret leased to a fresh BATCH token (which has no lease of its own: the secret lease is its own owner in the
+token index). `Register` caps the expiry by the batch token's; the harness gives the token a lifetime (700 h) beyond
+every bound it asks for, so the cap never binds (recorded assumption). -/
+def batchReg (s : St) (ttl max : Int) (renewable : Bool) (now : Int) : St × Out :=
+  match calcTTL { now, start := now, sysMax, sysDefault, increment := 0, backendTTL := ttl, period := 0,
+                  backendMax := max, explicitMax := 0 } with
+  | .ok t _ =>
+    let l : Lease := { id := s.next, isAuth := false, owner := s.next, issue := now, expiry := some (now + t), bttl := ttl,
+                       bmax := max, emax := 0, renewable, irrevocable := false, rootNonExp := false, batch := true }
+    let s := updatePending (putLease { s with next := s.next + 1 } l) l
+    (s, .okLease l.id t)
+  | _ => (s, .err "ttl")
+
 /-- `auth/token/create` by the root token (orphan): TTL from `CalculateTTL(sysView, 0, ttl, 0, 0, explicitMax, now)`,
 then `RegisterAuth` -/
 def tokCreate (s : St) (ttl emax : Int) (renewable : Bool) (now : Int) : St × Out :=
@@ -237,10 +252,23 @@ def rootCreate (s : St) (now : Int) : St × Out :=
   let s := updatePending (putLease { s with next := s.next + 1 } l) l
   (s, .okLease l.id 0)
 
-/-- `leaseEntry.renewable()`, in the code's order (the batch-token arm does not apply to service tokens) -/
+/-- `leaseEntry.renewable()`, in the code's order. The batch arm answers `(false, nil)` — "not renewable" for the
+lookup views, but NO error, and `Renew` looks at the error only: a live lease issued to a batch token is renewed whether
+or not its secret is renewable (finding F64, kept by `TestExpiration_Register_BatchToken`). Since the repair F63 the arm
+stands below the expiry check (it stood above it: an expired lease of a batch token was renewed, too). -/
 def renewableCheck (l : Lease) (now : Int) : Option String :=
   if l.irrevocable then some "irrevocable"
   else if l.expiry.isNone then some "notrenewable"
+  else if expired l now then some "expired"
+  else if l.batch then none
+  else if !l.renewable then some "notrenewable"
+  else none
+
+/-- the order before the repair F63 -/
+def renewableCheckBatchFirst (l : Lease) (now : Int) : Option String :=
+  if l.irrevocable then some "irrevocable"
+  else if l.expiry.isNone then some "notrenewable"
+  else if l.batch then none
   else if expired l now then some "expired"
   else if !l.renewable then some "notrenewable"
   else none
@@ -424,6 +452,7 @@ inductive Op where
   | tokCreate (ttl emax : Int) (renewable : Bool) (now : Int)
   | rootCreate (now : Int)
   | reg (owner : Nat) (ttl max : Int) (renewable : Bool) (now : Int)
+  | batchReg (ttl max : Int) (renewable : Bool) (now : Int)
   | renew (id : Nat) (incr now : Int)
   | tokRenew (id : Nat) (incr now : Int)
   | revoke (id : Nat) (sync : Bool) (now : Int)
@@ -450,6 +479,7 @@ def applyOp (s : St) : Op → St × Out
   | .tokCreate ttl emax ren now => tokCreate s ttl emax ren now
   | .rootCreate now => rootCreate s now
   | .reg owner ttl max ren now => reg s owner ttl max ren now
+  | .batchReg ttl max ren now => batchReg s ttl max ren now
   | .renew id incr now => renew s id incr now
   | .tokRenew id incr now => tokRenew s id incr now
   | .revoke id sync now => revoke s id sync now
